@@ -82,7 +82,7 @@ func specDoc(fams []*family) []byte {
 }
 
 func rejectClass(msg string) string {
-	for _, k := range []string{"not implemented", "conflict", "discriminator", "infinite recursion", "can't generate valid name", "unsupported", "complex", "nullable", "enum"} {
+	for _, k := range []string{"is differ", "cannot merge", "not implemented", "conflict", "discriminator", "infinite recursion", "can't generate valid name", "unsupported", "complex", "nullable", "enum"} {
 		if strings.Contains(msg, k) {
 			return strings.ReplaceAll(k, " ", "-")
 		}
@@ -92,6 +92,18 @@ func rejectClass(msg string) string {
 
 func Main(args []string) int {
 	r := ev.New("C03", "exploration")
+	if rc := Drive(r, args, false); rc != 0 {
+		return rc
+	}
+	r.Assume("reference validator internal/schemaref written from OpenAPI 3.0.3 / JSON Schema Wright draft-00 (Appendix C of DESIGN.md), cross-checked triple by triple with python jsonschema Draft4Validator; disagreements are dropped and reported as inconclusive")
+	r.Assume("deciding domain: integers within +-2^53 written without fraction or exponent, dyadic non-integers, portable patterns, no duplicate member names, no lone surrogates, no enum+nullable; oneOf/anyOf variants disjoint by construction (distinct JSON types or discriminating required member with additionalProperties:false)")
+	return r.Finish("random schemas of the supported keyword fragment (depth 1-3, wide objects crossing the required-bitmask byte boundaries, $ref, recursion, sums with and without discriminator, allOf) plus crafted allOf/nullable/default families, each served by a regenerated server; per schema: schema-directed valid instances, every single-keyword boundary mutant of them, random JSON; oracle: handler invoked with 2xx iff both references call the instance valid, else 400 without invoking the handler. distinct = (schema, instance)", 5000, false)
+}
+
+// Drive generates schema families, servers for them and runs the driver. With conformance (C04's
+// conformance clause) fewer families are built and, instead of posting instances, Go values of the root
+// types are built by reflection and their encodings validated against the source schema.
+func Drive(r *ev.Run, args []string, conformance bool) int {
 	if len(args) >= 2 && args[0] == "--replay" {
 		r.Replay = args[1]
 		fmt.Println("replay: schemas and instances are a function of VERIF_SEED/VERIF_TIER; re-running that tier and seed re-drives the witness (the schema and instance are stored in the replay file)")
@@ -104,6 +116,9 @@ func Main(args []string) int {
 	defer cleanup()
 
 	nFam := r.N(900, 6000)
+	if conformance {
+		nFam = r.N(300, 3000)
+	}
 	perSpec := 60
 	opts := gen.Options{Generator: gen.GenerateOptions{Features: genlab.Features("paths/server")}}
 	fams := make([]*family, nFam)
@@ -133,7 +148,7 @@ func Main(args []string) int {
 		rootS := f.comps[f.root]
 		relaxed := map[string]*jsonv.Value{}
 		for n, sc := range f.comps {
-			relaxed[n] = dropUndeclaredRequired(sc)
+			relaxed[n] = dropUndeclaredRequired(sc, f.comps)
 		}
 		relaxedRes := schemaref.MapResolver(relaxed)
 		strict := map[string]*jsonv.Value{}
@@ -202,6 +217,18 @@ func Main(args []string) int {
 			f.rejectW = res1.Stage + ": " + res1.ErrText()
 		}
 	})
+	craftedInfo := map[string]string{}
+	for i := 0; i < len(crafted) && i < len(fams); i++ {
+		f := fams[i]
+		nv := 0
+		for _, c := range f.cases {
+			if c.Valid {
+				nv++
+			}
+		}
+		craftedInfo[fmt.Sprintf("crafted-%02d", i)] = fmt.Sprintf("admitted=%v valid_instances=%d invalid_instances=%d %s", f.admit, nv, len(f.cases)-nv, first(f.rejectW))
+	}
+	r.Set("crafted_families", craftedInfo)
 	rejected := map[string]int{}
 	var live []*family
 	for _, f := range fams {
@@ -232,6 +259,9 @@ func Main(args []string) int {
 		}
 	}
 	drop := map[ref]bool{}
+	if conformance {
+		xc = nil
+	}
 	xres, xerr := xcheckParallel(xc)
 	switch {
 	case errors.Is(xerr, schemaref.ErrNoPython):
@@ -271,6 +301,23 @@ func Main(args []string) int {
 			fam := servlab.C03Family{Path: fmt.Sprintf("/s%d", f.idx), Schema: string(jsonv.Compact(f.comps[f.root]))}
 			if f.recSum {
 				fam.Tags = append(fam.Tags, "recursive-sum")
+			}
+			if conformance {
+				all, rel, noc, both := jsonv.NewObject(), jsonv.NewObject(), jsonv.NewObject(), jsonv.NewObject()
+				names := make([]string, 0, len(f.comps))
+				for n := range f.comps {
+					names = append(names, n)
+				}
+				sort.Strings(names)
+				for _, n := range names {
+					all.Members = append(all.Members, jsonv.Member{Name: n, Value: f.comps[n]})
+					rel.Members = append(rel.Members, jsonv.Member{Name: n, Value: dropUndeclaredRequired(f.comps[n], f.comps)})
+					noc.Members = append(noc.Members, jsonv.Member{Name: n, Value: dropPropertyCounts(f.comps[n])})
+					both.Members = append(both.Members, jsonv.Member{Name: n, Value: dropPropertyCounts(dropUndeclaredRequired(f.comps[n], f.comps))})
+				}
+				fam.Root, fam.All, fam.AllRelaxed = f.root, string(jsonv.Compact(all)), string(jsonv.Compact(rel))
+				fam.AllNoCount, fam.AllBoth = string(jsonv.Compact(noc)), string(jsonv.Compact(both))
+				fam.Cases = nil
 			}
 			if len(f.comps) > 1 {
 				cm := jsonv.NewObject()
@@ -316,8 +363,8 @@ func Main(args []string) int {
 			}
 			sp = append(sp, specs[i])
 		}
-		data, _ := json.Marshal(servlab.C03Data{Specs: sp})
-		res, err := drv.Run(servlab.Job{Driver: "c03", Prop: "C03", Data: data}, 60*time.Minute)
+		data, _ := json.Marshal(servlab.C03Data{Specs: sp, Conformance: conformance, Values: r.N(16, 60)})
+		res, err := drv.Run(servlab.Job{Driver: "c03", Prop: r.Prop, Data: data}, 60*time.Minute)
 		if err != nil {
 			fmt.Println("ERROR", err)
 			return 2
@@ -336,9 +383,7 @@ func Main(args []string) int {
 		}
 		os.Remove(drv.Bin)
 	}
-	r.Assume("reference validator internal/schemaref written from OpenAPI 3.0.3 / JSON Schema Wright draft-00 (Appendix C of DESIGN.md), cross-checked triple by triple with python jsonschema Draft4Validator; disagreements are dropped and reported as inconclusive")
-	r.Assume("deciding domain: integers within +-2^53 written without fraction or exponent, dyadic non-integers, portable patterns, no duplicate member names, no lone surrogates, no enum+nullable; oneOf/anyOf variants disjoint by construction (distinct JSON types or discriminating required member with additionalProperties:false)")
-	return r.Finish("random schemas of the supported keyword fragment (depth 1-3, wide objects crossing the required-bitmask byte boundaries, $ref, recursion, sums with and without discriminator, allOf) each served by a regenerated server; per schema: schema-directed valid instances, every single-keyword boundary mutant of them, random JSON; oracle: handler invoked with 2xx iff both references call the instance valid, else 400 without invoking the handler. distinct = (schema, instance)", 5000, false)
+	return 0
 }
 
 func xcheckParallel(xc []schemaref.XCase) ([]bool, error) {
@@ -392,26 +437,71 @@ func first(s string) string {
 }
 
 // dropUndeclaredRequired returns a copy of the schema in which every "required" list keeps only
-// names declared under "properties" of the same object (used to name one finding, never to excuse others).
-func dropUndeclaredRequired(s *jsonv.Value) *jsonv.Value {
+// names that are declared under "properties" of the same object or, inside an allOf, of any branch of
+// that allOf (the generator merges the branches). Used to name one finding, never to excuse others.
+func dropUndeclaredRequired(s *jsonv.Value, comps map[string]*jsonv.Value) *jsonv.Value {
 	c := s.Clone()
-	c.Walk(func(x *jsonv.Value) {
-		if x.Kind != jsonv.Object {
+	var declared func(x *jsonv.Value, depth int, into map[string]bool)
+	declared = func(x *jsonv.Value, depth int, into map[string]bool) {
+		if x == nil || x.Kind != jsonv.Object || depth > 8 {
 			return
 		}
-		req := x.Get("required")
-		if req == nil || req.Kind != jsonv.Array {
+		if r := x.Get("$ref"); r != nil && r.Kind == jsonv.String {
+			declared(comps[strings.TrimPrefix(r.Str, "#/components/schemas/")], depth+1, into)
 			return
 		}
-		props := x.Get("properties")
-		var keep []*jsonv.Value
-		for _, e := range req.Elems {
-			if e.Kind == jsonv.String && props != nil && props.Kind == jsonv.Object && props.Get(e.Str) != nil {
-				keep = append(keep, e)
+		if p := x.Get("properties"); p != nil && p.Kind == jsonv.Object {
+			for _, m := range p.Members {
+				into[m.Name] = true
 			}
 		}
-		req.Elems = keep
-	})
+		if a := x.Get("allOf"); a != nil && a.Kind == jsonv.Array {
+			for _, e := range a.Elems {
+				declared(e, depth+1, into)
+			}
+		}
+	}
+	var walk func(x *jsonv.Value, inherited map[string]bool)
+	walk = func(x *jsonv.Value, inherited map[string]bool) {
+		switch x.Kind {
+		case jsonv.Array:
+			for _, e := range x.Elems {
+				walk(e, nil)
+			}
+			return
+		case jsonv.Object:
+		default:
+			return
+		}
+		known := map[string]bool{}
+		for k := range inherited {
+			known[k] = true
+		}
+		declared(x, 0, known)
+		if req := x.Get("required"); req != nil && req.Kind == jsonv.Array {
+			var keep []*jsonv.Value
+			for _, e := range req.Elems {
+				if e.Kind == jsonv.String && known[e.Str] {
+					keep = append(keep, e)
+				}
+			}
+			req.Elems = keep
+		}
+		for _, m := range x.Members {
+			switch m.Name {
+			case "allOf":
+				if m.Value.Kind == jsonv.Array {
+					for _, e := range m.Value.Elems {
+						walk(e, known) // branches see what their siblings declare
+					}
+				}
+			case "required", "enum", "default", "example":
+			default:
+				walk(m.Value, nil)
+			}
+		}
+	}
+	walk(c, nil)
 	return c
 }
 
@@ -566,4 +656,22 @@ var crafted = []string{
 	`{"Root":{"type":"object","properties":{"m":{"type":"object","additionalProperties":{"type":"integer","minimum":0},"minProperties":1,"maxProperties":2},"n":{"type":"object","additionalProperties":false,"properties":{"k":{"type":"string"}}},"o":{"type":"object","additionalProperties":{"type":"string","nullable":true}}},"required":["m"],"additionalProperties":false}}`,
 	`{"Root":{"oneOf":[{"$ref":"#/components/schemas/Cat"},{"$ref":"#/components/schemas/Dog"}],"discriminator":{"propertyName":"kind","mapping":{"cat":"#/components/schemas/Cat","dog":"#/components/schemas/Dog"}}},"Cat":{"type":"object","required":["kind","lives"],"properties":{"kind":{"type":"string","enum":["cat"]},"lives":{"type":"integer","minimum":1,"maximum":9}},"additionalProperties":false},"Dog":{"type":"object","required":["kind","bark"],"properties":{"kind":{"type":"string","enum":["dog"]},"bark":{"type":"boolean"}},"additionalProperties":false}}`,
 	`{"Root":{"type":"object","required":["u"],"properties":{"u":{"anyOf":[{"type":"string","minLength":3},{"type":"integer","minimum":10},{"type":"array","items":{"type":"boolean"},"maxItems":2}]}}}}`,
+}
+
+// dropPropertyCounts removes minProperties/maxProperties everywhere (naming only).
+func dropPropertyCounts(s *jsonv.Value) *jsonv.Value {
+	c := s.Clone()
+	c.Walk(func(x *jsonv.Value) {
+		if x.Kind != jsonv.Object || (x.Get("minProperties") == nil && x.Get("maxProperties") == nil) {
+			return
+		}
+		var keep []jsonv.Member
+		for _, m := range x.Members {
+			if m.Name != "minProperties" && m.Name != "maxProperties" {
+				keep = append(keep, m)
+			}
+		}
+		x.Members = keep
+	})
+	return c
 }
